@@ -43,6 +43,10 @@ def plan(ops, quick, seed):
                 continue
             lines.append("%s %d bnd %d" % (n, mult, seed))
             lines.append("%s %d rnd %d" % (n, mult, seed + 1))
+            if sb and "ACCUMULATOR" not in o["flags"]:
+                # second operand as a parameter / as a constant instead of an array
+                lines.append("%s %d par %d" % (n, mult, seed + 2))
+                lines.append("%s %d con %d" % (n, mult, seed + 3))
             if not quick:
                 for k in range(2, 8):
                     lines.append("%s %d bnd %d" % (n, mult, seed + 10 * k))
@@ -85,15 +89,24 @@ def validate_ops(ctx, traces, label, prop):
         elems = 0
         r = T.validate("Trace_Ops", "Trace_Ops.cfg", tf, timeout=3000, heap="6g")
         g = 0
-        while not r["accepted"] and g < 12:
+        total = sum(1 for x in rows if x["e"] == "Run")
+        while True:
+            m = re.search(r'"ELEMENTS", (\d+)', r["res"]["out"])
+            if r["accepted"]:
+                elems += int(m.group(1)) if m else 0
+                break
             g += 1
-            bad.append(rows[r["rejected_at"] - 1])
-            rows = rows[:r["rejected_at"] - 1] + rows[r["rejected_at"]:]
+            ev = rows[r["rejected_at"] - 1]
+            bad.append(ev)
+            # events are independent of each other: go on after the rejected one, and leave out the
+            # other events of the same opcode (one report per opcode and path)
+            rows = [x for x in rows[r["rejected_at"]:]
+                    if not (x.get("op") == ev.get("op") and x.get("x") == ev.get("x") and x.get("e") == ev.get("e"))]
+            if not rows or g > 40:
+                break
             write_ndjson(tf + ".rest", rows)
             r = T.validate("Trace_Ops", "Trace_Ops.cfg", tf + ".rest", timeout=3000, heap="6g")
-        m = re.search(r'"ELEMENTS", (\d+)', r["res"]["out"])
-        if m:
-            elems = int(m.group(1))
+        rows = [x for x in read_ndjson(tf)]
         return path, bad, elems, sum(1 for x in rows if x["e"] == "Run")
     out = parallel(val, traces)
     n = 0
@@ -131,8 +144,10 @@ def sanity_model(ctx):
 
 def run(ctx):
     ops = int_ops(genops.write())
-    if not sanity_model(ctx):
-        return
+    import threading
+    ok = {}
+    th = threading.Thread(target=lambda: ok.setdefault("sanity", sanity_model(ctx)))
+    th.start()
     lines = plan(ops, ctx.quick, ctx.seed)
     ctx.cov["plan_lines"] = len(lines)
     ctx.cov["opcodes"] = len(ops)
@@ -140,6 +155,7 @@ def run(ctx):
     ctx.rng.shuffle(lines)
     traces = run_paths(ctx, lines, ["emu"], "c02")
     validate_ops(ctx, traces, "c02", "C02")
+    th.join()
     ctx.cov["exhaustive"] = False
     ctx.cov["rule"] = ("per opcode: all 8-bit values/pairs, all 16-bit first operands, boundary-biased and seeded "
                        "random operands for every size, n in {1,3,7,15,16,17,31,32,33,64,100}, 5 misalignments, x1/x2/x4")
